@@ -30,6 +30,7 @@ def mk_conn(hw, budget, transpile, outcomes):
     DebugConnection.node_ids = {"app": 0, "Bob": 1}
     sock = EPRSocket("Bob")
     ex = NetExecutor("ctrl", outcomes=list(outcomes))
+    ex.check_alloc = True       # gates and measurements on a virtual qubit that is not allocated fault, as on a real back end
     cfg = NVHardwareConfig(budget) if hw == "nv" else GenericHardwareConfig(budget)
     kw = {"compiler": NVSubroutineTranspiler} if transpile else {}
     conn = PipeConnection("app", executor=ex, epr_sockets=[sock], hardware_config=cfg, max_qubits=budget, **kw)
@@ -51,6 +52,8 @@ def _menu(live, limit):
         opts.append(("meas", i))
         opts.append(("meas_inplace", i))
         opts.append(("free", i))
+    if len(live) >= 2:
+        opts.append(("cnot", 0, len(live) - 1))
     if live:
         opts.append(("gate", 0))
         opts.append(("reset", len(live) - 1))
@@ -74,11 +77,15 @@ def _menu(live, limit):
 def fault_class(e):
     m = str(e)
     for key, name in (("is already allocated", "double_allocation"), ("is not allocated and cannot be freed", "free_unallocated"),
-                      ("outside the unit module", "outside_unit_module"), ("wait instruction blocks", "deadlock"),
+                      ("outside the unit module", "outside_unit_module"), ("was not allocated", "gate_on_unallocated_qubit"), ("wait instruction blocks", "deadlock"),
                       ("instructions executed", "diverged"), ("wait polls", "deadlock")):
         if key in m:
             return name
     return type(e).__name__
+
+
+def two_qubit_gate_in(hist):
+    return any(h[0] == "cnot" for h in hist)
 
 
 def retry_in(hist):
@@ -120,7 +127,7 @@ def make_body(spec, falsify=False):
             except (PathAbort, Infeasible):
                 raise
             except Exception as e:  # noqa
-                return [Ob("subroutine_executes_without_fault", False, dict(site0, family=family(hist), fault=fault_class(e), retry=retry_in(hist)),
+                return [Ob("subroutine_executes_without_fault", False, dict(site0, family=family(hist), fault=fault_class(e), retry=retry_in(hist), two_qubit_gate=two_qubit_gate_in(hist)),
                            info={"history": [list(h) for h in hist], "error": f"{type(e).__name__}: {str(e)[:200]}"})]
             sdk_ids = sorted(q.qubit_id for q in conn.active_qubits)
             ctrl_ids = sorted(v for v, p in enumerate(ex._qubit_unit_modules[APP]) if p is not None)
@@ -155,6 +162,8 @@ def make_body(spec, falsify=False):
                                   info={"history": [list(h) for h in hist], "got": q.qubit_id, "lowest_free": lowest}))
                 elif k == "gate":
                     live[op[1]].H()
+                elif k == "cnot":
+                    live[op[1]].cnot(live[op[2]])
                 elif k == "reset":
                     live[op[1]].reset()
                 elif k == "meas":
@@ -258,7 +267,7 @@ def main(tier, seed):
     # deeper histories over a small alphabet (allocation / relocation logic on NV needs gaps in the id space: create, create,
     # measure the second, create, measure the first, ...); partitioned by their first three operations
     deep_depth = 7 if tier == "thorough" else 6
-    alpha = ["new", "meas", "gate", "flush"]
+    alpha = ["new", "meas", "gate", "cnot", "flush"]
 
     def prefixes(limit, k):
         out = [([], 0)]
